@@ -216,6 +216,13 @@ def isGoFlag (c : Char) : Bool := c = '#' || c = '0' || c = '+' || c = '-' || c 
 def goNum (ds : Str) : Option Nat :=
   if readNat ds.dropLast > 1000000 then none else some (readNat ds)
 
+/-- the optional `.precision` of a directive: `.` without digits is precision 0 -/
+def goPrecPart : Str → Option (Option Nat) × Str
+  | '.' :: r3 =>
+    let pd := r3.takeWhile isDigit
+    (if pd.isEmpty then some (some 0) else (goNum pd).map some, r3.dropWhile isDigit)
+  | r2 => (some none, r2)
+
 /-- `(*pp).doPrintf` on a format that consists of one directive and nothing else.  `none` = fmt reports
     %!(NOVERB) / %!(BADWIDTH) / %!(BADPREC) or finds extra text -/
 def goParse (s : Str) : Option GoSpec :=
@@ -226,12 +233,7 @@ def goParse (s : Str) : Option GoSpec :=
     let wd := r1.takeWhile isDigit
     let r2 := r1.dropWhile isDigit
     let wid : Option (Option Nat) := if wd.isEmpty then some none else (goNum wd).map some
-    let pr : Option (Option Nat) × Str :=
-      match r2 with
-      | '.' :: r3 =>
-        let pd := r3.takeWhile isDigit
-        (if pd.isEmpty then some (some 0) else (goNum pd).map some, r3.dropWhile isDigit)
-      | _ => (some none, r2)
+    let pr := goPrecPart r2
     match wid, pr.1, pr.2 with
     | some w, some p, [verb] =>
       some { sharp := fl.contains '#', zero := fl.contains '0', plus := fl.contains '+', minus := fl.contains '-',
